@@ -179,6 +179,9 @@ CODEC = ["C01", "C02", "C06", "C08", "C09", "C10", "C16", "C17", "C20"]
 
 # (id, properties that must stay at exit 0, edits)  -- behaviour-preserving refactors
 SILENT: List[Tuple[str, List[str], List[Any]]] = [
+    ("load-varint-first-as-optional-int", ["C17", "C16", "C08", "C01", "C02", "C10"], [(I, "def load_varint(stream: \"SupportsRead[bytes]\", first: bytes = b\"\") -> Tuple[int, bytes]:", "def load_varint(stream: \"SupportsRead[bytes]\", first: Optional[int] = None) -> Tuple[int, bytes]:"), (I, "    raw = b\"\"\n    for shift in count(0, 7):", "    raw = bytearray()\n    for shift in count(0, 7):"), (I, "        b = first or stream.read(1)\n        first = b\"\"\n        if not b:\n            raise EOFError(\"Stream ended unexpectedly while attempting to load varint.\")\n        raw += b\n        b_int = int.from_bytes(b, byteorder=\"little\")\n", "        if first is not None:\n            b_int, first = first, None\n        else:\n            b = stream.read(1)\n            if not b:\n                raise EOFError(\"Stream ended unexpectedly while attempting to load varint.\")\n            b_int = b[0]\n        raw.append(b_int)\n"), (I, "            return result, raw\n", "            return result, bytes(raw)\n"), (I, "        num_wire, raw = load_varint(stream, first)\n", "        num_wire, raw = load_varint(stream, first[0])\n")]),
+    ("lowercase-first-by-slices", ["C19", "C05"], [("src/betterproto/casing.py", "    return value[0:1].lower() + value[1:]", "    head, tail = value[:1], value[1:]\n    return head.lower() + tail")]),
+    ("from-datetime-converts-to-utc-first", ["C15", "C02", "C01"], [(I, "        offset = dt - DATETIME_ZERO\n", "        offset = dt.astimezone(timezone.utc) - DATETIME_ZERO\n")]),
     ("is-set-merged-branches-default-false", ["C14", "C06"], [(I, "        if isinstance(value, Message):\n            return value._serialized_on_wire or bool(value)\n        if isinstance(value, (list, dict)):\n            return bool(value)\n", "        if isinstance(value, (Message, list, dict)):\n            return bool(value) or getattr(value, \"_serialized_on_wire\", False)\n")]),
     ("sanitize-name-kwlist-membership", ["C19", "C03"], [("src/betterproto/casing.py", "    if keyword.iskeyword(value):\n        return f\"{value}_\"\n    if not value.isidentifier():\n        return f\"_{value}\"\n    return value\n", "    if not value.isidentifier():\n        return \"_\" + value\n    return value + \"_\" if value in keyword.kwlist else value\n")]),
     ("load-frame-bound-in-own-local", ["C10", "C08", "C17", "C01"], [(I, "        if size == SIZE_DELIMITED:\n            size, _ = load_varint(stream)\n", "        expected = size\n        if size == SIZE_DELIMITED:\n            expected, _ = load_varint(stream)\n"), (I, "        while size is None or read < size:", "        while expected is None or read < expected:"), (I, "            if size is not None and read > size:\n                raise ValueError(\n                    f\"Expected message of size {size}, can only read \"", "            if expected is not None and read > expected:\n                raise ValueError(\n                    f\"Expected message of size {expected}, can only read \""), (I, "        if size is not None and read < size:\n            raise ValueError(\n                f\"Expected message of size {size}, but was only able to \"", "        if expected is not None and read < expected:\n            raise ValueError(\n                f\"Expected message of size {expected}, but was only able to \"")]),
